@@ -19,7 +19,10 @@ for pid in allp:
         "engine": "lean4-proof+correspondence",
         "level_claimed": {"category": "proof", "text": d["level_text"], "design_ref": "DESIGN.md section 8, " + pid},
         "level_note": d["level_note"],
-        "technique": d.get("technique", "Lean 4 theorems about an executable model + differential correspondence of the model with the library built from /repo"),
+        "technique": d.get("technique", "Lean 4 theorems about an executable model + differential correspondence of the model with the library built from /repo"
+                           + (" + the functions of /repo the property rests on translated to Lean on every run and proved equal to the model (bridge modules %s)"
+                              % ", ".join(sorted({".".join(b.split(".")[:3]) if b.count(".") > 1 else b for b in props.BRIDGES.get(pid, [])}))
+                              if props.BRIDGES.get(pid) else "")),
     })
 na = [{"property_id": p, "reason": props.NOT_APPLICABLE.get(p, "no check is registered for this property in this revision (see DESIGN.md)")}
       for p in allp if p not in props.PROPS]
